@@ -820,11 +820,33 @@ func runC13Listener(c *core.Ctx, e *ev, br *bsRoles, serverClosed *ssa.Global) {
 		c.Check(t == nil && errv != nil, "R5", "accept-loop/error-exits", p.InstrPos(a), "an Accept error ends the loop", "the accept loop continues after an Accept error (spins on a closed acceptor / never reports server-closed)", p.PathString(path, t)...)
 		// error side with context done returns the sentinel
 		retSentinel := false
-		core.AllInstrs(loopFn, func(x ssa.Instruction) {
-			if ret, ok := x.(*ssa.Return); ok && len(ret.Results) == 1 {
-				if ld, ok := core.Unwrap(ret.Results[0]).(*ssa.UnOp); ok && serverClosed != nil && ld.X == ssa.Value(serverClosed) {
-					retSentinel = true
+		var yieldsSentinel func(v ssa.Value, d int) bool
+		yieldsSentinel = func(v ssa.Value, d int) bool {
+			if d > 3 || serverClosed == nil {
+				return false
+			}
+			v = core.Unwrap(v)
+			if ld, ok := v.(*ssa.UnOp); ok && ld.X == ssa.Value(serverClosed) {
+				return true
+			}
+			if phi, ok := v.(*ssa.Phi); ok {
+				for _, e := range phi.Edges {
+					if yieldsSentinel(e, d+1) {
+						return true
+					}
 				}
+			}
+			// the choice between the sentinel and the Accept error made by a helper
+			for _, r := range throughReturns(p, v) {
+				if yieldsSentinel(r.val, d+1) {
+					return true
+				}
+			}
+			return false
+		}
+		core.AllInstrs(loopFn, func(x ssa.Instruction) {
+			if ret, ok := x.(*ssa.Return); ok && len(ret.Results) == 1 && yieldsSentinel(ret.Results[0], 0) {
+				retSentinel = true
 			}
 		})
 		c.Check(retSentinel, "R5", "accept-loop/server-closed", p.InstrPos(a), "returns the server-closed error when the context is done", "the accept loop never returns the server-closed error")
